@@ -120,7 +120,7 @@ func overCount(rec *ev.Rec) bool {
 func TestP1Budget(t *testing.T) {
 	rec := ev.New("C11", "budget")
 	defer rec.Finish(t)
-	rec.Rule("terminating deterministic programs (control-flow programs of the C03 generator, data programs of the C02 generator and eight resource-heavy programs - large array/string/dict allocations, long strings and procedure bodies, deep nesting, many dictionaries -, with or without a final error; an eighth of them wrapped in an eexec section so that cut points fall inside it) are run without budget (MaxOps = 0, after a run with an ample guard budget showed that they end; both runs must agree) -> (ops, state, error); then with MaxOps = N for every N in 1..ops+2 (all cut points when ops <= 400, 200 evenly spaced plus ops-1..ops+2 otherwise) on a fresh interpreter: N >= ops must reproduce state, error and NumOps exactly; N < ops must return ErrExecutionLimitExceeded (identity) with NumOps = N or N+1 (whether the refused operation is counted is not fixed; never past N+1, never short of N). Non-trivial: ops >= 10 and the program contains a loop or a procedure call; distinct by program text.")
+	rec.Rule("terminating deterministic programs (control-flow programs of the C03 generator, data programs of the C02 generator and eight resource-heavy programs - large array/string/dict allocations, long strings and procedure bodies, deep nesting, many dictionaries -, with or without a final error; an eighth of them wrapped in an eexec section so that cut points fall inside it, a tenth inside `{...} stopped` contexts, plain and nested) are run without budget (MaxOps = 0, after a run with an ample guard budget showed that they end; both runs must agree) -> (ops, state, error); then with MaxOps = N for every N in 1..ops+2 (all cut points when ops <= 400, 200 evenly spaced plus ops-1..ops+2 otherwise) on a fresh interpreter: N >= ops must reproduce state, error and NumOps exactly; N < ops must return ErrExecutionLimitExceeded (identity) with NumOps = N or N+1 (whether the refused operation is counted is not fixed; never past N+1, never short of N). Non-trivial: ops >= 10 and the program contains a loop or a procedure call; distinct by program text.")
 	over := overCount(rec)
 	cfg := psgen.Config{TypeLiteral: true}
 	ev.SetupRapid(6000, 160000)
@@ -149,6 +149,14 @@ func TestP1Budget(t *testing.T) {
 		} else {
 			toks, f, _ := psgen.Adaptive(t, cfg, 25)
 			text, feat = psgen.Spell(toks), f
+		}
+		if rapid.IntRange(0, 9).Draw(t, "catching") == 0 {
+			// the program inside the error-catching context of the language
+			// (`stopped`, which the library may or may not provide: where it
+			// is undefined the run ends there, where it exists the budget
+			// error must pass through it like through any other context)
+			text = "{ " + text + " } stopped { 1 } { 2 } ifelse 3 { { " + text + " } stopped pop } stopped 4"
+			rec.Class("inside-stopped")
 		}
 		if rapid.IntRange(0, 7).Draw(t, "insection") == 0 {
 			// the same program inside an eexec section (hex form), so that cut
